@@ -42,12 +42,11 @@ class Anchors:
         self.g = cg.build(fx)
         self.reach = cg.reachable_from(self.g, [NEW])
         self.decodes = []  # (fn, bb, node, kind)
-        for name in sorted(self.reach):
-            fn = fx.view(name)
+        for fn in fx.subjects(sorted(self.reach)):
             if fn is None or fn.is_macro_generated():
                 continue
             fv = vals(fn)
-            for b, t in fn.own_calls():
+            for b, t in fn.calls():
                 n = fv.call_node(b)
                 if is_decode(n) and len(n.kids) >= 3:
                     key = n.kids[1]
